@@ -509,14 +509,26 @@ def _c17_episode(rng, steps):
                   rng.choice(corr_geo.COORDS[:6]))
         if "," in fields[0] or fields[0].startswith("#") or fields[0] != fields[0].strip():
             continue
-        form = rng.randint(0, 2)
-        val = ",".join(fields) if form == 0 else ([",".join(fields)] if form == 1 else [tuple(fields)])
+        form = rng.randint(0, 3)
+        extra = None
+        if form == 3:
+            # several records in one text, one per line (with a comment and a blank line)
+            f2 = corr_geo.rand_item(rng, None)
+            f2 = (f2[0], f2[1], f2[2], rng.choice(corr_geo.COORDS[:6]), rng.choice(corr_geo.COORDS[:6]))
+            if "," in f2[0] or f2[0].startswith("#") or f2[0] != f2[0].strip():
+                continue
+            extra = f2
+            val = "# two records\n" + ",".join(fields) + "\n\n" + ",".join(f2) + "\n"
+        else:
+            val = ",".join(fields) if form == 0 else ([",".join(fields)] if form == 1 else [tuple(fields)])
         history.append(repr(val))
         try:
             geo.add_locations(val, db)
         except Exception as exc:  # noqa: BLE001
             return {"clause": "adding a well-formed record succeeds", "value": repr(val), "got": repr(exc)}
         log.append((fields[0], fields[1], fields[2]))
+        if extra is not None:
+            log.append((extra[0], extra[1], extra[2]))
     got = sorted((r.name, r.region, r.timezone) for r in geo.all_locations(db))
     if got != sorted(log):
         extra = [x for x in got if x not in log][:3]
